@@ -698,9 +698,10 @@ class RatioOfMeans(  # noqa: D101
             else:
                 contr_mean_var = contr_var / contr_count
                 treat_mean_var = treat_var / treat_count
-                df = (contr_mean_var + treat_mean_var)**2 / (
-                    contr_mean_var**2 / (contr_count - 1)
-                    + treat_mean_var**2 / (treat_count - 1)
+                sum_mean_var = contr_mean_var + treat_mean_var
+                df = sum_mean_var * sum_mean_var / (
+                    contr_mean_var * contr_mean_var / (contr_count - 1)
+                    + treat_mean_var * treat_mean_var / (treat_count - 1)
                 )
             null_distr = scipy.stats.t(df=df)
             alt_distr = None if effect_size is None else scipy.stats.nct(
